@@ -821,6 +821,7 @@ func (l *lexer) scanHeredoc() bool {
 			return false
 		}
 	}
+	l.mark(0)
 	return true
 }
 
